@@ -38,6 +38,7 @@ PROPS = {
             H("h_c01_attr", {"N": 2}, {"N": 3}, shards={"quick": shard_choose("len", 3), "thorough": shard_choose("len", 4)}),
             H("h_c01_mixed", shards={"quick": shard_choose("shape", 4), "thorough": shard_choose("shape", 4)}),
             H("h_c01_ns", shards={"quick": shard_product(("c0", 8), ("ns0", 3)), "thorough": shard_product(("c0", 8), ("ns0", 3))}),
+            H("h_c01_nsuri", {"N": 2}, {"N": 3}),
         ],
         "bounds": {"quick": "text and attribute values of <=2 symbolic XML Chars end to end (<=3 at the kernel), comment / PI / "
                             "text of 1 char in 4 mixed-content shapes, 2-level element trees over 8x8 declaration layouts x 3x3 "
@@ -49,8 +50,9 @@ PROPS = {
     },
 }
 
-C04_SHARDS = (["shape=%d;opkind=0;op=%d" % (s_, o) for s_ in range(7) for o in range(9)]
-              + ["shape=%d;opkind=%d" % (s_, k) for s_ in range(7) for k in (1, 2)])
+C04_SHARDS = (["shape=%d;opkind=0;op=%d" % (s_, o) for s_ in range(8) for o in range(9)]
+              + ["shape=%d;opkind=1;op=%s" % (s_, g) for s_ in range(8) for g in ("0,1,2,3", "4,5,6,7", "8,9,10,11", "12,13,14,15,16")]
+              + ["shape=%d;opkind=2" % s_ for s_ in range(8)])
 
 PROPS["C04"] = {
     "claim": "structural validity of the forest after arbitrary public calls, decided on the real manipulation / "
@@ -61,7 +63,7 @@ PROPS["C04"] = {
           budget=(900, 480), partial=("thorough",)),
     ],
     "panic_ok": ["h_c04_step"],
-    "bounds": {"quick": "7 start forests (5-8 nodes, all text-like contents symbolic), 1 call drawn from 34 operations with "
+    "bounds": {"quick": "7 start forests (5-8 nodes, all text-like contents symbolic) plus forest 0 with adjacent text nodes (consolidation switched off and on again), 1 call drawn from 34 operations with "
                         "every tuple of live nodes as arguments",
                "thorough": "same forests, sequences of 2 calls: each of the 77 shards explores 2-call sequences for 480 s in a "
                     "VERIF_SEED-dependent order (the space is not exhausted; evidence lists the shards as partial)"},
@@ -69,14 +71,14 @@ PROPS["C04"] = {
     "assumptions": [],
 }
 
-C06_SHARDS = (["shape=%d;opkind=0;op=%d" % (s_, o) for s_ in range(7) for o in range(9)]
-              + ["shape=%d;opkind=1" % s_ for s_ in range(7)])
+C06_SHARDS = (["shape=%d;opkind=0;op=%d" % (s_, o) for s_ in range(8) for o in range(9)]
+              + ["shape=%d;opkind=1" % s_ for s_ in range(8)])
 
 PROPS["C06"] = {
     "claim": "no panic edge is feasible in a manipulation call on live nodes, and on every path that returns Err the "
              "complete read-back (structure, values, liveness of every handle) is unchanged",
     "harnesses": [H("h_c06_step", shards={"quick": C06_SHARDS, "thorough": C06_SHARDS}, budget=(900, 3000))],
-    "bounds": {"quick": "7 start forests (5-8 nodes, symbolic contents), 1 call of 26 operations x every tuple of live nodes "
+    "bounds": {"quick": "7 start forests (5-8 nodes, symbolic contents) plus forest 0 with adjacent text nodes (consolidation switched off and on again), 1 call of 26 operations x every tuple of live nodes "
                         "of every kind", "thorough": "same"},
     "outside": "forests other than the catalogue; element-only accessors on non-elements (documented panics)",
     "assumptions": [],
@@ -107,7 +109,7 @@ PROPS["C13"] = {
     "assumptions": [],
 }
 
-C05_SHARDS = ["shape=%d;consolidate=%d;op=%d" % (s_, c, o) for s_ in range(7) for c in range(2) for o in range(11)]
+C05_SHARDS = ["shape=%d;consolidate=%d;op=%d" % (s_, c, o) for s_ in range(7) for c in range(3) for o in range(11)]
 
 PROPS["C05"] = {
     "claim": "one successful manipulation call under its documented preconditions leaves exactly the forest an ordered-tree "
@@ -116,7 +118,7 @@ PROPS["C05"] = {
                   # "attribute / namespace updates touch exactly one entry": the reference-map harnesses of C11
                   H("h_c11_attrs", {"STEPS": 1}, {"STEPS": 1}, shards={"quick": shard_product(("nn", 3), ("na", 3)), "thorough": shard_product(("nn", 3), ("na", 3))}),
                   H("h_c11_namespaces", {"STEPS": 1}, {"STEPS": 1}, shards={"quick": shard_product(("nn", 3), ("na", 2)), "thorough": shard_product(("nn", 3), ("na", 2))})],
-    "bounds": {"quick": "7 start forests x consolidation on/off x 11 operations x every argument tuple satisfying the "
+    "bounds": {"quick": "7 start forests x consolidation on / off / switched on after adjacent text nodes were built x 11 operations x every argument tuple satisfying the "
                         "preconditions; all text contents symbolic", "thorough": "same"},
     "outside": "sequences of more than one call (C04 covers two-call histories structurally); which of two merged text nodes "
                "survives is not asserted (the property's wording is ambiguous there)",
